@@ -457,6 +457,8 @@ func driveC02(seed int64, tier, out, replay string) {
 			`{ me { __typename friend { __typename id phone } } }`,
 			`{ a: me { name } a: me { phone } }`,
 			`{ me { pets { id } pets { weight } } }`,
+			`{ me { pets { id } } me { pets { weight } } }`,
+			`{ me { friend { id name } } me { friend { phone } } }`,
 			// helpers the client selects himself through fragments (fix 75235b9), both helpers on one level (2e934d6),
 			// a fragment on an interface inside a union (the union fix)
 			`{ beings { ... on Node { __typename } } }`,
